@@ -47,6 +47,7 @@ pub fn all() -> Vec<Regression> {
         Regression { name: "D28-first-output-absolute-slack", property: "C03", what: "x0=1, span 1e-9, first_step=span/7, DOP853 rtol 1e-8 on a problem starting at rest: t must be strictly monotone", f: d28 },
         Regression { name: "D29-brent-sign-product-underflow", property: "C08", what: "g = 1e-170*(t-c) must be located at c", f: d29 },
         Regression { name: "D30-bdf-initial-step-exponent", property: "C01", what: "BDF on y''=-y from x0 = 50.2 with rtol=1e-9, atol=1e-12 and the automatic initial step must reach xend", f: d30 },
+        Regression { name: "D31-dop853-nonfinite-after-error-test", property: "C04", what: "DOP853, first_step = 2*span: a single NaN answer at the new-point derivative or a dense-output stage of the last step must not give Success with NaN samples", f: d31 },
         Regression { name: "D16-rk4-dense-order", property: "C07", what: "RK4 cubic Hermite dense output must be O(h^4) inside a step", f: d16 },
     ]
 }
@@ -590,6 +591,37 @@ fn d28() -> Result<(), String> {
     for w in s.t.windows(2) {
         if !(w[1] > w[0]) {
             return Err(format!("t not strictly increasing: {:e} then {:e}", w[0], w[1]));
+        }
+    }
+    Ok(())
+}
+
+fn d31() -> Result<(), String> {
+    let p = base(Base::Decay(-1.0));
+    for (fs, teval) in [(Some(4.0), false), (Some(1.3), false), (None, true)] {
+        let mut c = Cfg::new(Method::DOP853, 0.0, 2.0, &p.y0).tol(1e-4, 1e-6);
+        c.first_step = fs;
+        if teval {
+            c.t_eval = Some((0..=6).map(|i| 2.0 * i as f64 / 6.0).collect());
+        }
+        c.budget = 1_000_000;
+        let n0 = run(&p, &c).st.n_ode;
+        // every single transient NaN answer of the run
+        for at in 0..n0 {
+            let ans = move |i: u64, _t: f64, _y: &[f64], d: &mut [f64]| {
+                if i == at {
+                    d[0] = f64::NAN;
+                }
+            };
+            let r = run_with(&p, &c, Some(&ans), None);
+            match &r.out {
+                Outcome::Budget => return Err(format!("NaN at call {}: more than 10^6 RHS calls", at)),
+                Outcome::Panic(m) => return Err(format!("NaN at call {}: panic {}", at, m)),
+                Outcome::Ok(s) if s.status == Status::Success && s.y.iter().any(|v| !v[0].is_finite()) => {
+                    return Err(format!("first_step {:?}, t_eval {}: NaN at call {} of {}: Success with y = {:?} at t = {:?}", fs, teval, at, n0, s.y.last(), s.t.last()))
+                }
+                _ => {}
+            }
         }
     }
     Ok(())
